@@ -109,7 +109,7 @@ Quiescent == /\ IsEvent("Quiescent")
 Final == /\ IsEvent("Final")
          /\ Imp("C20", loopret # "none" /\ Settled)
          /\ UNCHANGED <<conns, svcs, ctxdone, accerr, loopret, hcanc>>
-Other == /\ l <= Len(Trace) /\ Ev.ev \in {"SB", "SE", "RB", "RE", "CB", "CE", "Send", "Recv", "RecvErr", "Teardown", "Start", "AcceptB"}
+Other == /\ l <= Len(Trace) /\ Ev.ev \in {"SB", "SE", "RB", "RE", "CB", "CE", "Send", "Recv", "RecvErr", "Teardown", "Start", "AcceptB", "BufferReused"}
          /\ l' = l + 1 /\ UNCHANGED <<conns, svcs, ctxdone, accerr, loopret, hcanc>>
 Terminal == /\ l <= Len(Trace) /\ Ev.ev \in {"Crash", "Deadlock", "Leak"} /\ "C20" \notin Enforce
             /\ l' = l + 1 /\ UNCHANGED <<conns, svcs, ctxdone, accerr, loopret, hcanc>>
